@@ -18,7 +18,7 @@ import (
 // ---------------------------------------------------------------------------
 
 type c17Row struct {
-	Kind  int // 0 no TTL, 1 TTL 0, 2 short, 3 long, 4 extended (2 s, then +1 h right away), 5 long then re-set to short
+	Kind  int // 0 no TTL, 1 TTL 0, 2 short, 3 long, 4 extended (2 s, then +1 h right away), 5 long then re-set to short, 6 short then taken away again with a TTL of 0
 	TTLms int
 }
 
@@ -32,11 +32,11 @@ type c17Case struct {
 }
 
 func (c c17Case) String() string {
-	n := [6]int{}
+	n := [7]int{}
 	for _, r := range c.Rows {
 		n[r.Kind]++
 	}
-	return fmt.Sprintf("big=%v concExtend=%d vacuum=%dms rows{noTTL:%d ttl0:%d short:%d long:%d extended:%d reset-to-short:%d} mode=%d busy=%v", c.Big, c.ConcExtend, c.IntervalMs, n[0], n[1], n[2], n[3], n[4], n[5], c.Mode, c.Busy)
+	return fmt.Sprintf("big=%v concExtend=%d vacuum=%dms rows{noTTL:%d ttl0:%d short:%d long:%d extended:%d reset-to-short:%d ttl-taken-away:%d} mode=%d busy=%v", c.Big, c.ConcExtend, c.IntervalMs, n[0], n[1], n[2], n[3], n[4], n[5], n[6], c.Mode, c.Busy)
 }
 
 type c17Tracked struct {
@@ -180,6 +180,10 @@ func runC17Case(cs c17Case) (nontrivial bool, err error) {
 				until = row.SetTTL(0)
 			case 2:
 				until = row.SetTTL(time.Duration(r.TTLms) * time.Millisecond)
+			case 6:
+				// 400 ms: long enough that the next call (which takes it away) cannot come too late even
+				// on a busy machine, short enough that a lost "take away" shows before the case ends
+				until = row.SetTTL(400 * time.Millisecond)
 			case 3, 5:
 				until = row.SetTTL(time.Hour + time.Duration(r.TTLms)*time.Millisecond)
 			case 4:
@@ -211,7 +215,17 @@ func runC17Case(cs c17Case) (nontrivial bool, err error) {
 				return false, fmt.Errorf("row id=%d: Row.TTL() = %s,%v; the deadline is %s away", id, left, ok, want)
 			}
 		}
-		if r.Kind == 0 || r.Kind == 1 {
+		if r.Kind == 6 {
+			// a time-to-live of zero takes the deadline away again (Row.SetTTL or the transaction's TTL accessor)
+			if id%2 == 0 {
+				c.QueryAt(off, func(row column.Row) error { row.SetTTL(0); return nil })
+			} else {
+				c.Query(func(txn *column.Txn) error {
+					return txn.QueryAt(off, func(column.Row) error { txn.TTL().Set(0); return nil })
+				})
+			}
+		}
+		if r.Kind == 0 || r.Kind == 1 || r.Kind == 6 {
 			until = time.Time{}
 		}
 		rows = append(rows, c17Tracked{id, until})
@@ -340,6 +354,11 @@ func runC17Case(cs c17Case) (nontrivial bool, err error) {
 		bound = 10 * time.Second
 	}
 	minWait := 12 * interval
+	for _, r := range cs.Rows {
+		if r.Kind == 6 && minWait < 900*time.Millisecond {
+			minWait = 900 * time.Millisecond // well past the deadline that was taken away
+		}
+	}
 	start := time.Now()
 	for {
 		// taken BEFORE the rows are judged: once now is past every deadline, each overdue row that
@@ -443,7 +462,7 @@ func TestC17(t *testing.T) {
 			}
 			n := rapid.IntRange(2, 12).Draw(t, "nrows")
 			for j := 0; j < n; j++ {
-				cs.Rows = append(cs.Rows, c17Row{Kind: rapid.IntRange(0, 5).Draw(t, "kind"), TTLms: rapid.IntRange(10, 60).Draw(t, "ttl")})
+				cs.Rows = append(cs.Rows, c17Row{Kind: rapid.IntRange(0, 6).Draw(t, "kind"), TTLms: rapid.IntRange(10, 60).Draw(t, "ttl")})
 			}
 			cases[i] = cs
 		}
@@ -471,6 +490,79 @@ func TestC17(t *testing.T) {
 				t.Fatalf("C17 violated: %v\ncase: %s", r.err, cases[i])
 			}
 			RecordCase("C17", cases[i].String()+fmt.Sprintf(" ttls=%v", cases[i].Rows), r.nt, fmt.Sprintf("mode-%d", cases[i].Mode), fmt.Sprintf("interval-%dms", cases[i].IntervalMs))
+		}
+	})
+}
+
+// TestC17PooledClock: the deadline of a row is "the moment SetTTL was called + ttl", whatever the
+// (pooled) transaction object that serves the call did before. K nested read-only queries put K
+// transaction objects into use at once; after an idle period K nested inserts (again K
+// transactions in flight) give their rows a TTL a little longer than the idle period. Every row
+// must still be there while its deadline is more than a second away.
+func TestC17PooledClock(t *testing.T) {
+	par := envInt("VERIF_C17_PAR", 16)
+	rapid.Check(t, func(t *rapid.T) {
+		type pc struct {
+			K      int
+			IdleMs int
+		}
+		cases := make([]pc, par)
+		for i := range cases {
+			cases[i] = pc{K: rapid.IntRange(4, 24).Draw(t, "nested"), IdleMs: rapid.IntRange(1300, 1700).Draw(t, "idle-ms")}
+		}
+		errs := make([]error, par)
+		var wg sync.WaitGroup
+		for i := range cases {
+			wg.Add(1)
+			go func(i int) {
+				defer wg.Done()
+				cs := cases[i]
+				c := column.NewCollection(column.Options{Vacuum: 5 * time.Millisecond})
+				defer c.Close()
+				c.CreateColumn("id", column.ForUint64())
+				c.Insert(func(r column.Row) error { r.SetUint64("id", 1<<40); return nil })
+				var nest func(k int, body func(txn *column.Txn, k int))
+				nest = func(k int, body func(txn *column.Txn, k int)) {
+					if k == 0 {
+						return
+					}
+					c.Query(func(txn *column.Txn) error {
+						body(txn, k)
+						nest(k-1, body)
+						return nil
+					})
+				}
+				nest(cs.K, func(txn *column.Txn, k int) { txn.Range(func(uint32) {}) })
+				time.Sleep(time.Duration(cs.IdleMs) * time.Millisecond)
+				ttl := time.Duration(cs.IdleMs+500) * time.Millisecond
+				deadlines := map[uint64]time.Time{}
+				var mu sync.Mutex
+				nest(cs.K, func(txn *column.Txn, k int) {
+					before := time.Now()
+					txn.Insert(func(r column.Row) error { r.SetUint64("id", uint64(k)); r.SetTTL(ttl); return nil })
+					mu.Lock()
+					deadlines[uint64(k)] = before.Add(ttl) // the earliest moment the row may go
+					mu.Unlock()
+				})
+				for step := 0; step < 8; step++ {
+					time.Sleep(100 * time.Millisecond)
+					present := c17Present(c)
+					now := time.Now()
+					for id, d := range deadlines {
+						if d.After(now.Add(time.Second)) && !present[id] {
+							errs[i] = fmt.Errorf("row id=%d was given a time-to-live of %s at %s (so its deadline is not before %s) and is gone at %s; %d transactions had been in use %dms earlier", id, ttl, d.Add(-ttl).Format("15:04:05.000"), d.Format("15:04:05.000"), now.Format("15:04:05.000"), cs.K, cs.IdleMs)
+							return
+						}
+					}
+				}
+			}(i)
+		}
+		wg.Wait()
+		for i, err := range errs {
+			if err != nil {
+				t.Fatalf("C17 violated: %v", err)
+			}
+			RecordCase("C17", fmt.Sprintf("pooled clock: %d nested transactions, idle %dms", cases[i].K, cases[i].IdleMs), true, "ttl-set-by-a-reused-transaction-object")
 		}
 	})
 }
